@@ -7,8 +7,9 @@
 (* times, with silent processing steps in between, and whose projected     *)
 (* state - queue length and the "all processed" flag - equals the state    *)
 (* read from the real object at every observable event.                    *)
-(* A submission is three logged events (Submit, Produced, ProducerDone)    *)
-(* and one model action.                                                   *)
+(* A plain call is three logged events (Submit, Produced, ProducerDone)    *)
+(* and one model action; an awaitable's result two (Produced,              *)
+(* ProducerDone), an empty map two (Submit, ProducerDone).                 *)
 (***************************************************************************)
 EXTENDS Buffer, Json, IOUtils
 
@@ -39,7 +40,7 @@ Silent == /\ l <= Len(T)
           /\ Next
           /\ mon' = mon /\ vars' # vars
           /\ l' = l /\ sil' = sil + 1
-CNext == Consume(1) \/ Consume(3) \/ Silent
+CNext == Consume(1) \/ Consume(2) \/ Consume(3) \/ Silent
 Reached == IF l > TLCGet(1) THEN TLCSet(1, l) /\ PrintT(<<"REACHED", 1, l, Len(T) + 1>>) ELSE TRUE
 NotYetAccepted == TLCGet(1) <= Len(T)
 =============================================================================
